@@ -158,13 +158,13 @@ func bubble(c *explore.Ctx, pc *world.ProducerChain, nHeights int, extra [][]byt
 	env.DA.GetPolicy = func(h uint64) world.GetAnswer {
 		a := world.GetOK
 		if !settled && c != nil && h <= tip {
-			a = world.GetAnswer(c.Choose("fetch", 5))
+			a = world.GetAnswer(c.Choose("fetch", 6))
 		}
 		if a != world.GetOK {
 			answers = append(answers, fmt.Sprintf("%d:%d", h, a))
 		}
 		rec := a
-		if a == world.GetErrorOnGet && len(env.DA.BlobsAt(h)) == 0 {
+		if (a == world.GetErrorOnGet || a == world.GetNotFoundOnGet) && len(env.DA.BlobsAt(h)) == 0 {
 			rec = world.GetNotFound // nothing to fetch: the listing is an (empty) success
 		}
 		calls = append(calls, call{h, rec})
@@ -253,6 +253,14 @@ func bubble(c *explore.Ctx, pc *world.ProducerChain, nHeights int, extra [][]byt
 		return
 	}
 	// (b)/(c) events: exactly the genuine items of the examined heights, nothing else
+	// "only genuine": anything handed to sync must be an item of the producer's chain (a mutated copy of a genuine
+	// blob that still decodes to the same signed item IS that item); "must be handed over": the items placed at
+	// successfully examined heights
+	anyH, anyD := map[string]bool{}, map[string]bool{}
+	for i := 0; i < pc.Len(); i++ {
+		anyH[string(pc.Hashes[i])] = true
+		anyD[string(pc.DataAt(i).DACommitment())] = true
+	}
 	genuineH, genuineD := map[string]bool{}, map[string]bool{}
 	for dah, idxs := range genuineAt {
 		if toldEmpty[dah] {
@@ -268,14 +276,14 @@ func bubble(c *explore.Ctx, pc *world.ProducerChain, nHeights int, extra [][]byt
 	gotH, gotD := map[string]int{}, map[string]int{}
 	for _, e := range all {
 		if e.header {
-			if !genuineH[e.hash] {
+			if !anyH[e.hash] {
 				out.fail = &world.Fail{Clause: "only-genuine-events", Msg: fmt.Sprintf("a header event with hash %X was handed to sync; no genuine blob has it", e.hash)}
 				out.tags = tags
 				return
 			}
 			gotH[e.hash]++
 		} else {
-			if !genuineD[e.hash] {
+			if !anyD[e.hash] {
 				out.fail = &world.Fail{Clause: "only-genuine-events", Msg: fmt.Sprintf("a data event with commitment %X was handed to sync; no genuine blob has it", e.hash)}
 				out.tags = tags
 				return
@@ -309,7 +317,7 @@ func TestCheck(t *testing.T) {
 	subs := vf.Pick(r, []byte{0x00, 0xff, 0x0a, 0x80}, nil) // nil = all 255 other values
 	r.Assume = []string{
 		"virtual time; the harness sends the retrieve signal and drains the sync input channels itself",
-		"fetch outcomes per listing call: ok / listing error / not found / from the future / error while fetching the blobs (first chunk)",
+		"fetch outcomes per listing call: ok / listing error / not found / from the future / error while fetching the blobs / 'blob: not found' while fetching the blobs (first chunk)",
 		"the 10 in-call retries and the early return on 'from the future' are accepted behaviours; a height counts as passed only after an ok or confirmed-empty answer",
 	}
 	pc, err := world.BuildChain("aeb", 1)
@@ -413,7 +421,7 @@ func TestCheck(t *testing.T) {
 	r.Sample(map[string]any{"part2": fmt.Sprintf("%d mutated/truncated blobs in %d scans of %d blobs next to a genuine header+data", len(junk), p2runs, batch)})
 	r.Finish(vf.Coverage{
 		Evaluations: st.Executions + p2runs, DistinctNontrivial: int64(r.DistinctOutcomes()), States: st.Executions, Transitions: st.Points,
-		Rule:       "part 1: every DA layout (5 content kinds per height) × start height {0,1,3} × every sequence of fetch outcomes (5 per listing call) within the budget, real RetrieveLoop under virtual time; part 2: every prefix and single-byte substitution of a genuine header blob and a genuine data blob plus malformed shapes, scanned in batches of 250 next to genuine blobs; distinct = distinct (layout, faults, calls, events) signatures",
+		Rule:       "part 1: every DA layout (5 content kinds per height) × start height {0,1,3} × every sequence of fetch outcomes (6 per listing call) within the budget, real RetrieveLoop under virtual time; part 2: every prefix and single-byte substitution of a genuine header blob and a genuine data blob plus malformed shapes, scanned in batches of 250 next to genuine blobs; distinct = distinct (layout, faults, calls, events) signatures",
 		Exhaustive: true, Caps: caps,
 		Bounds:     map[string]any{"da_heights": nHeights, "budgets": budgets, "junk_blobs": len(junk), "substitution_values_per_position": map[bool]any{true: 255, false: len(subs) + 1}[subs == nil]},
 	})
